@@ -762,6 +762,7 @@ def do_check(check, tier, seed):
             "runs_with_sweep": agg.get("runs_sweep", 0),
             "runs_fault_free": agg.get("runs_faultfree", 0),
             "ops_compared_with_canonical_schedule": agg.get("canonical_compared_ops", 0),
+            "runs_where_attached_faults_fired_differently_between_schedules": agg.get("runs_fault_divergent", 0),
             "tsan_reports": agg.get("tsan_reports", 0),
             "probes": probes,
             "entry_point_x_grid_difference": agg.get("c08_matrix", {}),
